@@ -268,7 +268,10 @@ def handle1 : List String → String
       let aux? : Option (Option Bytes) := if aux == "rfc" then some none else (hexToList? aux).map some
       match aux? with
       | some a => match schnorrSign d msg a with
-        | some (r, s) => s!"{listToHex (serializeSchnorrSig r s)} {b01 (schnorrVerify r s msg (serializeXOnly (mulG d)))}"
+        | some (r, s) =>
+          -- default nonce path: only "a signature that verifies" is property-level (any nonce is admissible)
+          if aux == "rfc" then s!"rfc {b01 (schnorrVerify r s msg (serializeXOnly (mulG d)))}" else
+          s!"{listToHex (serializeSchnorrSig r s)} {b01 (schnorrVerify r s msg (serializeXOnly (mulG d)))}"
         | none => "err"
       | none => "bad-op"
     | _, _ => "bad-op"
